@@ -420,7 +420,8 @@ fn main() {
         "exploration",
         &args,
         "case = (generated or directed program with a satisfying input, prover configuration: lanes, min height, \
-         horner packing, constraint profile); non-trivial = the circuit has >=1 ALU row and was accepted by build + \
+         horner packing, constraint profile); second stream (keys C10:npo:..): row programs over the Poseidon2/Poseidon1 \
+         permutation tables from c04npo; non-trivial = the circuit has >=1 ALU row and was accepted by build + \
          key generation; distinct by (setup, program hash, configuration)",
     );
     rep.assume("satisfying inputs are produced by construction and re-checked with the field interpreter O1");
@@ -428,6 +429,12 @@ fn main() {
     if let Some(p) = &args.replay {
         let v: Value = serde_json::from_str(&std::fs::read_to_string(p).expect("replay file")).unwrap();
         let d = v["detail"].clone();
+        if d["stream"].as_str() == Some("npo") {
+            // cases of the permutation-row-program stream are replayed by the sibling binary
+            let exe = std::env::current_exe().unwrap().with_file_name("c04npo");
+            let st = std::process::Command::new(exe).arg("--replay").arg(p).arg("--honest-only").status().expect("run c04npo");
+            std::process::exit(st.code().unwrap_or(2));
+        }
         let name = d["setup"].as_str().unwrap().to_string();
         let rs = with_setup!(name.as_str(), replay, &d);
         rep.add_all(rs);
@@ -438,5 +445,9 @@ fn main() {
     let mut rs = run_cases_isolated(SETUP_NAMES.len(), args.threads, |i| with_setup!(SETUP_NAMES[i], directed,));
     rs.extend(run_cases_isolated(n, args.threads, |i| with_setup!(SETUP_NAMES[i % SETUP_NAMES.len()], case, seed, i, tier)));
     rep.add_all(rs);
+    // second stream: row programs over the Poseidon permutation tables (sponge / Merkle chains, index
+    // accumulator exposure, tables with exactly 2^k rows, add_mmcs_verify, add_hash_slice) produced
+    // by the sibling binary c04npo: built, run on satisfying inputs, proven, verified
+    rep.add_all(import_emitted("c04npo", "C10", &args, |r| r.key.starts_with("C10:")));
     rep.finish(args.tier.pick(400, 8_000));
 }
